@@ -112,6 +112,8 @@ def run(rec, cfg):
             continue
         rec.arm("start:" + src)
         k += 1
+        if src in ("arm-text", "edge-text", "near-text") and D._small(root, 25):
+            D.inplace_pairs(rec, root, use, rng, first=6, second=4)
         MR.HINTS[:] = hints
         if k % 3 == 1:
             # in-place chain: the same node objects are printed, rewritten in place and printed again
